@@ -23,10 +23,25 @@ func (s *Sentinel) Error() string { return "injected fault " + s.Tag }
 // NewSentinel returns a fresh, distinguishable injected error.
 func NewSentinel(tag string) error { return &Sentinel{Tag: tag} }
 
+// NotFound is an injected error that IS a not-found condition without being the library's
+// sentinel itself: errors.Is(e, resolver.ErrPackageNotFound) holds through Unwrap, as for an error a
+// resolver built with fmt.Errorf("...: %w", resolver.ErrPackageNotFound). Code that re-creates the
+// sentinel instead of wrapping what it was given loses this value.
+type NotFound struct{ Tag string }
+
+func (n *NotFound) Error() string { return "injected not-found " + n.Tag }
+func (n *NotFound) Unwrap() error { return resolver.ErrPackageNotFound }
+
+func NewNotFound(tag string) error { return &NotFound{Tag: tag} }
+
 // IsInjected reports whether err wraps any injected fault.
 func IsInjected(err error) bool {
 	var s *Sentinel
-	return errors.As(err, &s)
+	if errors.As(err, &s) {
+		return true
+	}
+	var n *NotFound
+	return errors.As(err, &n)
 }
 
 // Plan says which calls of a wrapper fail.
